@@ -204,6 +204,10 @@ def geoboxes():
         "far": ((4, 4), Affine(0.25, 0, 8, 0, -0.25, 10)),  # compatible, disjoint
         "half": ((8, 8), Affine(0.25, 0, 0.125, 0, -0.25, 2)),  # half-pixel shift: incompatible
         "res": ((8, 8), Affine(0.5, 0, 0, 0, -0.5, 2)),  # other resolution: incompatible
+        # empty geoboxes (a zero in the shape: disjoint `&`, `[k:k, :]` crops) on the compatible grid
+        "empty-rows": ((0, 5), Affine(0.25, 0, 0.5, 0, -0.25, 1.5)),
+        "empty-cols": ((4, 0), Affine(0.25, 0, 3.0, 0, -0.25, 4.0)),
+        "empty-both": ((0, 0), Affine(0.25, 0, 0, 0, -0.25, 2)),
     }
 
 
@@ -487,7 +491,14 @@ class Ctx:
             ok = exc is not None and isinstance(exc, ValueError)
             what = (f"{name} on CRSs {labels} ({case['kind']}) " +
                     ("returned a result" if exc is None else f"raised {type(exc).__name__} instead of a CRS ValueError"))
-            R.oracle(ok, f"mixed-crs-accepted:{name}", cdesc, what, sig=f"mismatch|{name.split('.')[0]}")
+            # every differing operand differs from the first only through the known lazy-EPSG equality defect?
+            odd = [e for e in ents if e[1] != truths[0]]
+            fuzzy = (ents[0][2] is not None and all(self.pool.fuzzy_code_match(ents[0], e) for e in odd))
+            key = KNOWN_FUZZY if (not ok and fuzzy and exc is None) else f"mixed-crs-accepted:{name}"
+            if key == KNOWN_FUZZY:
+                what = ("CRS.__eq__ trusts the EPSG code that PROJ's fuzzy to_epsg() cached in _epsg after `.epsg` was read: "
+                        + what)
+            R.oracle(ok, key, cdesc, what, sig=f"mismatch|{name.split('.')[0]}")
         else:
             if exc is not None:
                 ok = bool(info.get("delegate_raises"))
@@ -503,7 +514,7 @@ class Ctx:
             if tag not in (None, "-", "?empty"):
                 # "tagged with the operands' CRS": any spelling of it will do for the property (the exact choice —
                 # the first operand's — is pinned by the correspondence with the model, not here)
-                by_rec = {self.pool.rec(e[2]): e[1] for e in self.pool.entries}
+                by_rec = {self.pool.rec(e[2]): e[1] for e in self.pool.wide}
                 R.oracle(by_rec.get(tag, "?") == truths[0], f"result-crs-tag:{name}", cdesc,
                          f"{name}: result CRS record {tag} does not denote the operands' CRS ({labels[0]})",
                          sig="tag", trivial=True)
@@ -530,12 +541,44 @@ def gen_strict(C: Ctx):
                     for pk, q in others.items():
                         C.add(name, [ea, eb], [shp, q], f"{k}/{pk}")
             # wrong operand counts are rejected before anything else
+    # --- every strict operation x every ordered pair of the WIDE pool (CRSs without EPSG code, lossy spellings,
+    #     both lazy states of `.epsg`), one representative operand pair per family
+    wide = C.pool.wide
+    gb0 = geoboxes()
+    for name, sp in specs.items():
+        fam = name.split(".")[0]
+        if fam in ("Geometry",) or name in ("geom.intersects", "geom.unary_union", "geom.multigeom", "geom.common_crs",
+                                             "geom.unary_intersection"):
+            raws, kind = [kinds["polygon"], partners["P"]], "polygon/P"
+        elif fam == "BoundingBox" or "bbox" in name:
+            raws, kind = [(0.0, 0.0, 2.0, 2.0), (1.0, -1.0, 3.0, 1.5)], "bbox"
+        else:
+            raws, kind = [gb0["g0"], gb0["shift"]], "geobox:g0/shift"
+        for ea, eb in itertools.product(wide, wide):
+            C.add(name, [ea, eb], raws, kind)
+    # --- EMPTY operands at every position of every operation
+    from shapely import geometry as sg
+
+    empties = {"empty-polygon": sg.Polygon(), "empty-line": sg.LineString(), "empty-collection": sg.GeometryCollection(),
+               "empty-point": sg.Point()}
+    for name, sp in specs.items():
+        fam = name.split(".")[0]
+        if sp["arity"] == "2" and (fam == "Geometry" or name == "geom.intersects"):
+            for (ea, eb) in pairs:
+                for ek, emp in empties.items():
+                    C.add(name, [ea, eb], [emp, partners["P"]], f"{ek}/P")
+                    C.add(name, [ea, eb], [kinds["polygon"], emp], f"polygon/{ek}")
+                    C.add(name, [ea, eb], [emp, emp], f"{ek}/{ek}")
     # --- geometry, n-ary
     sets = {
         "polys": [kinds["polygon"], partners["P"], kinds["polygon+hole"]],
         "mixed": [kinds["line"], kinds["multipolygon"], kinds["collection"]],
         "points": [kinds["point"], partners["pt"], kinds["multipoint"]],
         "lines": [kinds["line"], partners["L"], kinds["ring"]],
+        "empty@0": [sg.Polygon(), partners["P"], kinds["polygon"]],
+        "empty@1": [kinds["polygon"], sg.GeometryCollection(), partners["P"]],
+        "empty@2": [kinds["polygon"], partners["P"], sg.LineString()],
+        "all-empty": [sg.Polygon(), sg.Polygon(), sg.Polygon()],
     }
     for name in ("geom.common_crs", "geom.multigeom", "geom.unary_union", "geom.unary_intersection"):
         C.add(name, [], [], "empty")
@@ -558,6 +601,11 @@ def gen_strict(C: Ctx):
     # --- bounding boxes (symbolic here; with the real arithmetic in gen_bbox)
     def rbox():
         x0, y0 = rng.randint(-64, 64) / 8, rng.randint(-64, 64) / 8
+        u = rng.random()
+        if u < 0.15:   # degenerate: no width and/or no height
+            return (x0, y0, x0, y0 + rng.choice([0, 1]))
+        if u < 0.25:   # inverted (what an empty intersection looks like)
+            return (x0, y0, x0 - rng.randint(1, 16) / 8, y0 - rng.randint(0, 16) / 8)
         return (x0, y0, x0 + rng.randint(0, 64) / 8, y0 + rng.randint(0, 64) / 8)
 
     for name in ("geom.bbox_union", "geom.bbox_intersection"):
@@ -589,7 +637,9 @@ def gen_strict(C: Ctx):
                 C.add(name, [ea, eb], [rbox(), rbox()], "bbox")
     # --- geoboxes
     gbs = geoboxes()
-    gpairs = [("g0", "shift"), ("g0", "far"), ("shift", "g0"), ("g0", "g0"), ("g0", "half"), ("g0", "res")]
+    gpairs = [("g0", "shift"), ("g0", "far"), ("shift", "g0"), ("g0", "g0"), ("g0", "half"), ("g0", "res"),
+              ("g0", "empty-rows"), ("empty-rows", "g0"), ("empty-cols", "shift"), ("shift", "empty-cols"),
+              ("empty-rows", "empty-cols"), ("empty-both", "g0"), ("g0", "empty-both")]
     for name, sp in specs.items():
         fam = name.split(".")[0]
         if fam in ("GeoBox", "geobox") and sp["arity"] == "2":
@@ -604,7 +654,8 @@ def gen_strict(C: Ctx):
             for (ka, kb) in gpairs:
                 C.add(name, [ea, eb], [gbs[ka], gbs[kb]], f"geobox:{ka}/{kb}")
         for tr in triples:
-            for ks in (("g0", "shift", "far"), ("g0", "half", "shift"), ("shift", "g0", "res")):
+            for ks in (("g0", "shift", "far"), ("g0", "half", "shift"), ("shift", "g0", "res"),
+                       ("empty-rows", "g0", "shift"), ("g0", "empty-cols", "shift"), ("g0", "shift", "empty-both")):
                 C.add(name, list(tr), [gbs[k] for k in ks], "geobox:" + "/".join(ks))
         for n in range(2, 6):
             for pos in range(n):
@@ -680,40 +731,51 @@ def check_crs_eq(C: Ctx):
     R = C.R
     import pickle
 
-    ents = list(C.pool.entries)
-    # further ways of arriving at "the same CRS object": copy-construct, pickle round trip
+    R.oracle(C.pool.truth_is_equivalence, "pyproj-eq-is-equivalence", {"pool": "fresh pyproj objects"},
+             "pyproj equality of the fresh reference objects is not an equivalence relation", trivial=True)
+    ents = list(C.pool.wide)
+    # further ways of arriving at "the same CRS": copy-construct (keeps the lazy slot), pickle round trip (resets it)
     extra = []
-    for lab, tr, c in ents:
+    for lab, tr, c, lazy in ents:
         if c is not None:
-            extra.append((lab + "+copy", tr, C.CRS(c)))
-            extra.append((lab + "+pickle", tr, pickle.loads(pickle.dumps(c))))
+            extra.append((lab + "+copy", tr, C.CRS(c), lazy))
+            extra.append((lab + "+pickle", tr, pickle.loads(pickle.dumps(c)), False))
     allents = ents + extra
-    recs = []
-    for lab, tr, c in allents:
-        recs.append(C.pool.rec(c))
-    for (la, ta, a), ra in zip(allents, recs):
-        for (lb, tb, b), rb in zip(allents, recs):
+    recs = [C.pool.rec(e[2]) for e in allents]
+    for ea, ra in zip(allents, recs):
+        la, ta, a, _ = ea
+        for eb, rb in zip(allents, recs):
+            lb, tb, b, _ = eb
             R.corr(f"c01 tageq {ra} {rb}", lambda a=a, b=b: bool_s(a == b),
                    sig="tageq|" + ("none" if (a is None or b is None) else "same-obj" if ra.split(":")[0] == rb.split(":")[0]
                                    else "epsg" if (ra.split(":")[1] != "0" and rb.split(":")[1] != "0") else "str/pyproj"))
             R.corr(f"c01 tagne {ra} {rb}", lambda a=a, b=b: bool_s(a != b), sig="tagne")
-            # ground truth: the labels say which CRS each spelling denotes
+            # ground truth: exact pyproj equality of fresh reference objects built from the two definitions
             try:
                 got = bool(a == b)
             except Exception:  # pylint: disable=broad-except
                 got = None
-            R.oracle(got == (ta == tb), "crs-eq-ground-truth", {"a": la, "b": lb},
-                     f"CRS[{la}] == CRS[{lb}] is {got}, the spellings denote {'the same' if ta == tb else 'different'} CRS")
+            fuzzy = C.pool.fuzzy_code_match(ea, eb)
+            state = ("both-read" if ea[3] and eb[3] else "one-read" if ea[3] or eb[3] else "unread")
+            R.oracle(got == (ta == tb), KNOWN_FUZZY if (fuzzy and got is True) else "crs-eq-ground-truth",
+                     {"a": la, "b": lb},
+                     f"CRS[{la}] == CRS[{lb}] is {got}, pyproj says the definitions are "
+                     f"{'the same' if ta == tb else 'different'} CRS" +
+                     (" (CRS.__eq__ trusts the EPSG code that PROJ's fuzzy to_epsg() cached in _epsg after `.epsg` was read)"
+                      if fuzzy else ""), sig=f"crs-eq|{state}")
             # well-formedness of the records (hypothesis WF of crsEq_iff_sameClass)
             if a is not None and b is not None:
-                oa, ea, sa, ca = (int(x) for x in ra.split(":"))
-                ob, eb, sb, cb = (int(x) for x in rb.split(":"))
+                oa, xa, sa, ca = (int(x) for x in ra.split(":"))
+                ob, xb, sb, cb = (int(x) for x in rb.split(":"))
                 wf = ((oa != ob or ca == cb) and (sa != sb or ca == cb)
-                      and (ea == 0 or eb == 0 or ((ea == eb) == (ca == cb))))
-                R.oracle(wf, "crs-record-wellformed", {"a": la, "b": lb, "ra": ra, "rb": rb},
+                      and (xa == 0 or xb == 0 or ((xa == xb) == (ca == cb))))
+                R.oracle(wf, KNOWN_FUZZY if fuzzy else "crs-record-wellformed", {"a": la, "b": lb, "ra": ra, "rb": rb},
                          f"records {ra} / {rb} violate WF", trivial=True)
                 peq = bool(a._crs == b._crs)  # pylint: disable=protected-access
                 R.oracle(peq == (ca == cb), "pyproj-eq-is-equivalence", {"a": la, "b": lb}, "", trivial=True)
+                R.oracle(peq == (ta == tb), "crs-wraps-another-definition", {"a": la, "b": lb},
+                         f"the pyproj objects inside CRS[{la}] / CRS[{lb}] compare {peq}, fresh objects built from the "
+                         f"definitions compare {ta == tb}", trivial=True)
 
 
 # --------------------------------------------------------------------------- converting / equality operations
@@ -723,7 +785,7 @@ def check_conv_eq(C: Ctx):
     from affine import Affine
     import pyproj
 
-    pool = C.pool.entries
+    pool = C.pool.regional
     A = Affine(0.5, 0, 1, 0, -0.5, 9)  # 16x16 pixels over lon 1..9, lat 1..9
     shape = (16, 16)
     lonlat = [(2.25, 2.25), (2.25, 5.5), (6.75, 5.5), (6.75, 2.25), (2.25, 2.25)]
@@ -957,6 +1019,7 @@ def run(R: Run):
     R.extra["ops_in_table"] = len(C.specs)
     R.extra["ops_discovered"] = len(found)
     R.extra["crs_pool"] = [e[0] for e in C.pool.entries]
+    R.extra["crs_pool_wide"] = [e[0] for e in C.pool.wide]
     R.assumptions.append("pyproj CRS equality is an equivalence relation and CRS records are well-formed (WF): "
                          "checked on the run's CRS pool (oracle keys crs-record-wellformed, pyproj-eq-is-equivalence)")
     R.assumptions.append("shapely and the pixel-grid arithmetic are parameters of the model; the real results are "
@@ -982,7 +1045,7 @@ def replay(R: Run, rec) -> int:
         print("nothing replayable on the real code for this record (model/proof side)")
         return 1 if rec.get("kind") == "no-failing-input-found" else 0
     C.pool = Pool(True)
-    byl = {e[0]: e for e in C.pool.entries}
+    byl = C.pool.by_label
     ents = [byl[l] for l in labels]
     C.specs = parse_specs(run_driver("C01", ["c01 ops"])[0])
     # rebuild the operands of that kind
